@@ -13,8 +13,8 @@ EXPLANATION = ('Static rules on BehaviorSubject: B1 next() stores the new value 
 ASSUMPTIONS = ['B4/B5 concern SubjectThreads instantiations with concurrent producers only']
 
 CONTROLS = [
-    'B1|<verif_controls::LateStoreBehavior<Item, S> as Observer>::next',
-    'B2|<verif_controls::LateStoreBehavior<Item, S> as Observable>::actual_subscribe',
+    'B1|<verif_controls::LateStoreBehavior as Observer>::next',
+    'B2|<verif_controls::LateStoreBehavior as Observable>::actual_subscribe',
 ]
 TAG = 'subject::behavior_subject::BehaviorSubject'
 
@@ -48,7 +48,7 @@ def check(cx):
             seen.add('observer')
             fn = F.impl_fn(im, 'next')
             g = cx.graph(fn['key'])
-            label = cx.label(fn)
+            label = roles.stable_label(cx, fn)
 
             def ev(n):
                 s = _store_ev(n)
@@ -72,7 +72,7 @@ def check(cx):
             seen.add('observable')
             fn = F.impl_fn(im, 'actual_subscribe')
             g = cx.graph(fn['key'])
-            label = cx.label(fn)
+            label = roles.stable_label(cx, fn)
 
             def ev2(n):
                 t = down_token(n)
